@@ -87,11 +87,21 @@ class Ctx:
         shutil.rmtree(self.work, ignore_errors=True)
 
     # -- building -------------------------------------------------------------------------
-    def build_harness(self, name="harness", tags=("verif",), race=False, extra_flags=()):
+    def build_harness(self, name="harness", tags=("verif",), race=False, extra_flags=(), extra_overlay_dir=None):
         hdir = os.path.join(VERIF, "harness")
         shutil.copy(os.path.join(REPO, "go.sum"), os.path.join(hdir, "go.sum"))
         out = os.path.join(self.work, name)
         overlay = make_overlay(self.work)
+        if extra_overlay_dir:
+            # files under extra_overlay_dir/<path> REPLACE /repo/<path> in this build only
+            ov = json.load(open(overlay))
+            for root, _, files in os.walk(extra_overlay_dir):
+                for fn in files:
+                    if fn.endswith(".go"):
+                        rel = os.path.relpath(os.path.join(root, fn), extra_overlay_dir)
+                        ov["Replace"][os.path.join(REPO, rel)] = os.path.join(root, fn)
+            overlay = os.path.join(self.work, name + "_overlay.json")
+            json.dump(ov, open(overlay, "w"))
         cmd = ["go", "build", "-tags", ",".join(tags), "-overlay", overlay, "-o", out]
         if race:
             cmd.append("-race")
